@@ -73,7 +73,8 @@ func (w *iw) Write(buf []byte) (int, error) {
 	if len(lines[len(lines)-1]) == 0 {
 		lines = lines[:len(lines)-1]
 	}
-	if !w.partial {
+	partial := w.partial
+	if !partial {
 		lines = append([][]byte{{}}, lines...)
 	}
 	joined := bytes.Join(lines, w.prefix)
@@ -81,6 +82,14 @@ func (w *iw) Write(buf []byte) (int, error) {
 
 	n, err := w.w.Write(joined)
 	if err != nil {
+		if partial {
+			// The first line continues a line whose prefix has
+			// already been written, so no prefix precedes it.
+			if n <= len(lines[0]) {
+				return n, err
+			}
+			return len(lines[0]) + actualWrittenSize(n-len(lines[0]), len(w.prefix), lines[1:]), err
+		}
 		return actualWrittenSize(n, len(w.prefix), lines), err
 	}
 
